@@ -398,3 +398,6 @@ UNITS.append(apply_actions_unit("C06"))
 
 from contracts.check_value_key import check_value_key_unit  # noqa: E402
 UNITS.append(check_value_key_unit("C06"))
+
+
+from contracts.share import shared  # noqa: E402
